@@ -8,6 +8,8 @@ deleted / files are written.  Quantifying over all tapes therefore quantifies ov
 `history` chains any number of such invocations.
 -/
 import KDVerif.Lemmas.CopyProtocol
+import KDVerif.Lemmas.C20Extra
+import KDVerif.Model.C20Spec
 
 namespace KDVerif.C20
 open KDVerif.CopyProtocol
@@ -238,5 +240,310 @@ theorem fmt_clear_cut (s : Src) :
     have : s.nItems / 2 ≤ s.nZips := by omega
     simp [fmtOf, hd, mostlyZips, hz, this]
   · intro hd hz; simp [fmtOf, hd, hz]
+
+/-! ## Progress (clause "whenever it returns normally" is not vacuous: an invocation that is not killed returns) -/
+
+/-- **Progress / termination with an explicit bound** (clause: the function *does* return normally when it is not
+    killed).  For a valid source (`_check_src_path` holds — the property's "plain folder, single zip or folder of zips";
+    for an invalid one the code raises `AssertionError`, which is not a normal return) and **every** file system `fs`
+    whatsoever (reachable or not: any leftovers in the destination, any state of the staging folder), an invocation
+    that is allowed `c20x_stepBound src fs` mutating steps returns normally, whatever order the scandir / worker oracle
+    picks.  The bound is
+    * `2·nFiles + 6` if there is no destination (≤ 2 unlinks of a stale staging folder, mkdir, start marker, rename,
+      create + fill per file, end marker),
+    * `3·nFiles + #foreign + 1` for an interrupted copy (one unlink per leftover, then create + fill per file, end marker),
+    * `0` for a finished copy or a folder without start marker. -/
+theorem returns_when_not_killed (src : Src) (hsrc : checkSrc src = true) (fs : FS) (tape : List Choice)
+    (hlen : c20x_stepBound src fs ≤ tape.length) : ∃ r, (attempt src tape fs).pc = .ret r :=
+  c20x_attempt_returns src hsrc fs tape hlen
+
+/-- the bound of `returns_when_not_killed` in closed form (it is a definition by cases, restated here for the reader) -/
+theorem stepBound_closed_form (src : Src) (fs : FS) :
+    (fs.dst = none → c20x_stepBound src fs = 2 * src.nFiles + 6) ∧
+    (∀ d, fs.dst = some d → d.start = true → d.end_ = false →
+        c20x_stepBound src fs = 3 * src.nFiles + d.foreign.length + 1) ∧
+    (∀ d, fs.dst = some d → (d.start = true → d.end_ = true) → c20x_stepBound src fs = 0) := by
+  refine ⟨?_, ?_, ?_⟩
+  · intro h; simp [c20x_stepBound, h]
+  · intro d h hs he; simp [c20x_stepBound, h, hs, he]
+  · intro d h himp
+    have : ¬ (d.start = true ∧ d.end_ = false) := by
+      intro ⟨hs, he⟩; rw [himp hs] at he; cases he
+    simp [c20x_stepBound, h, this]
+
+/-- the bound is sharp: two files and a stale staging folder with start marker need exactly `2·2 + 6 = 10` steps —
+    with 10 the invocation returns, killed after 9 it has not (the end marker is still missing) -/
+example : c20x_stepBound ⟨true, false, 2, 0, 2⟩ ⟨none, some true⟩ = 10 ∧
+    (attempt ⟨true, false, 2, 0, 2⟩ (List.replicate 10 .any) ⟨none, some true⟩).pc = .ret ⟨true, false, some .raw⟩ ∧
+    (attempt ⟨true, false, 2, 0, 2⟩ (List.replicate 9 .any) ⟨none, some true⟩).pc = .writeEnd false := by decide
+
+/-- **Uniform bound on reachable states**: on every file system that crashed automatic copies (or a user) can have left
+    behind — i.e. satisfying the invariant, which `inv_init_absent` / `inv_init_user` / `inv_history` establish — the
+    bound is at most `3·nFiles + 6`. -/
+theorem stepBound_reachable (src : Src) (o : Origin) (fs : FS) (h : Inv src o fs) :
+    c20x_stepBound src fs ≤ 3 * src.nFiles + 6 :=
+  c20x_stepBound_inv src o fs h
+
+/-- **Progress from every point inside an invocation** (every reachable configuration, not only invocation starts):
+    wherever an invocation on a destination stemming from automatic copies currently is — after any mutating steps `t1`,
+    in any order — `3·nFiles + 6` further steps without a kill reach the normal return. -/
+theorem returns_from_every_point (src : Src) (hsrc : checkSrc src = true) (fs : FS) (hinv : Inv src .auto fs)
+    (t1 t2 : List Choice) (hlen : 3 * src.nFiles + 6 ≤ t2.length) :
+    ∃ r, (attempt src (t1 ++ t2) fs).pc = .ret r :=
+  c20x_attempt_returns_from src hsrc fs hinv t1 t2 hlen
+
+/-- non-vacuity: the state a copy killed after 6 steps leaves satisfies the invariant (checked through its executable
+    form), so the hypotheses of `returns_from_every_point` hold there; and the hypothesis `checkSrc src = true` of the
+    progress theorems is necessary: with an invalid source the invocation ends in `AssertionError`, never in a return -/
+example : invAutoB ⟨true, false, 2, 0, 2⟩ (history ⟨true, false, 2, 0, 2⟩ [List.replicate 6 .any] ⟨none, none⟩) = true ∧
+    (attempt ⟨false, false, 0, 0, 2⟩ (List.replicate 12 .any) ⟨none, none⟩).pc = .failed := by decide +kernel
+
+/-- an invocation is a sequence of resumable pieces: being killed after `t1` and looking at the configuration is the
+    same as the first `t1` steps of a longer run (so "every configuration an invocation passes through" = "every
+    `exec src t1 c`") -/
+theorem exec_append (src : Src) (t1 t2 : List Choice) (c : Cfg) :
+    exec src (t1 ++ t2) c = exec src t2 (exec src t1 c) :=
+  c20x_exec_append src t1 t2 c
+
+/-! ## The headline in the property's words, without an invariant hypothesis -/
+
+/-- **Headline, automatic destination** (clause 1: "whenever it returns normally — no matter how many earlier
+    invocations were killed at arbitrary points — the local folder holds a complete copy").  Start: no destination
+    folder (the staging folder may be in any state `tmp0`, e.g. left over from an earlier kill).  `tapes`: any number
+    of earlier invocations, each killed after any number of mutating steps (or completed), in any order of entries.
+    If the final invocation returns, the destination exists with both markers, every file whole and nothing else.
+    No hypothesis on the source is needed (an invalid source never returns). -/
+theorem crash_safe_from_absent (src : Src) (tmp0 : Option Bool) (tapes : List (List Choice)) (tape : List Choice)
+    (r : Result) (hret : (attempt src tape (history src tapes ⟨none, tmp0⟩)).pc = .ret r) :
+    ∃ d, (attempt src tape (history src tapes ⟨none, tmp0⟩)).fs.dst = some d ∧ Complete src d :=
+  normal_return_complete src .auto ⟨none, tmp0⟩ (inv_init_absent src tmp0) tapes tape r hret
+
+/-- **Headline, total form**: valid source, absent destination, any crash history; a final invocation that is given
+    `3·nFiles + 6` steps *does* return, and the destination is then a complete copy. -/
+theorem eventually_complete_from_absent (src : Src) (hsrc : checkSrc src = true) (tmp0 : Option Bool)
+    (tapes : List (List Choice)) (tape : List Choice) (hlen : 3 * src.nFiles + 6 ≤ tape.length) :
+    ∃ r d, (attempt src tape (history src tapes ⟨none, tmp0⟩)).pc = .ret r ∧
+      (attempt src tape (history src tapes ⟨none, tmp0⟩)).fs.dst = some d ∧ Complete src d := by
+  have hinv := inv_history src .auto ⟨none, tmp0⟩ tapes (inv_init_absent src tmp0)
+  have hb := c20x_stepBound_inv src .auto _ hinv
+  obtain ⟨r, hr⟩ := c20x_attempt_returns src hsrc (history src tapes ⟨none, tmp0⟩) tape (by omega)
+  obtain ⟨d, hd, hc⟩ := crash_safe_from_absent src tmp0 tapes tape r hr
+  exact ⟨r, d, hr, hd, hc⟩
+
+/-- non-vacuity: three earlier invocations killed after 1, 4 and 3 steps (staging folder made; stale staging folder
+    removed, staged again and renamed; second file whole and first file partial), then 12 = 3·2+6 steps: returns
+    `was_copied ∧ was_deleted` -/
+example : (attempt ⟨true, false, 2, 0, 2⟩ (List.replicate 12 .any)
+    (history ⟨true, false, 2, 0, 2⟩ [[.any], List.replicate 4 .any, List.replicate 3 (.file 1)] ⟨none, none⟩)).pc =
+      .ret ⟨true, true, some .raw⟩ := by decide +kernel
+
+/-- **Headline, user-provided folder** (clause 2: "unless it was a user-provided folder that existed before any
+    automatic copy started, which is left untouched").  `d0` is any folder content without a start marker (what
+    distinguishes a user folder in the protocol), `tmp0` any state of the staging folder.  Then for every history of
+    invocations and every final invocation, killed anywhere or not, valid or invalid source:
+    the *entire* file system (destination and staging folder) is exactly as before, no mutating step is ever
+    performed, a return can only report "nothing done", and with a valid source every invocation does return so. -/
+theorem user_folder_untouched (src : Src) (d0 : Dir) (tmp0 : Option Bool) (hs : d0.start = false)
+    (tapes : List (List Choice)) (tape : List Choice) :
+    history src tapes ⟨some d0, tmp0⟩ = ⟨some d0, tmp0⟩ ∧
+    (attempt src tape (history src tapes ⟨some d0, tmp0⟩)).fs = ⟨some d0, tmp0⟩ ∧
+    trace src tape ⟨history src tapes ⟨some d0, tmp0⟩, .entry⟩ = [] ∧
+    (∀ r, (attempt src tape (history src tapes ⟨some d0, tmp0⟩)).pc = .ret r → r = nothingDone) ∧
+    (checkSrc src = true → (attempt src tape (history src tapes ⟨some d0, tmp0⟩)).pc = .ret nothingDone) := by
+  have himp : d0.start = true → d0.end_ = true := by intro h; rw [hs] at h; cases h
+  have hh := c20x_history_done src ⟨some d0, tmp0⟩ d0 tapes rfl himp
+  obtain ⟨ha, ht⟩ := c20x_attempt_done src ⟨some d0, tmp0⟩ d0 tape rfl himp
+  rw [hh, ha]
+  refine ⟨rfl, rfl, ht, ?_, ?_⟩
+  · intro r hr
+    cases hc : checkSrc src with
+    | false => simp [hc] at hr
+    | true => simp [hc] at hr; exact hr.symm
+  · intro hc; simp [hc]
+
+/-- non-vacuity: a user folder with two foreign entries and a half-present file survives three invocations -/
+example : (history ⟨true, false, 2, 0, 2⟩ [[.any], [], List.replicate 20 .any]
+    ⟨some ⟨false, false, fun i => if i = 0 then .whole else .absent, [7, 8]⟩, none⟩).dst.map (·.foreign) = some [7, 8] := by
+  decide +kernel
+
+/-! ## Idempotence -/
+
+/-- **A completed automatic copy is never deleted or redone** (clause 3), closed over histories and without any
+    hypothesis on the source: once the end marker is present (the start marker is not even needed for this), *any* later sequence of invocations — killed anywhere or
+    completed, in any number, even with a source that meanwhile became invalid — leaves the whole file system exactly
+    as it is; each of these invocations performs no mutating step, and (valid source) returns "nothing done". -/
+theorem completed_copy_idempotent (src : Src) (fs : FS) (d : Dir) (hd : fs.dst = some d)
+    (he : d.end_ = true) (tapes : List (List Choice)) :
+    history src tapes fs = fs ∧
+    ∀ tape, (attempt src tape (history src tapes fs)).fs = fs ∧
+      trace src tape ⟨history src tapes fs, .entry⟩ = [] ∧
+      (checkSrc src = true → (attempt src tape (history src tapes fs)).pc = .ret nothingDone) := by
+  have hh := c20x_history_done src fs d tapes hd (fun _ => he)
+  refine ⟨hh, ?_⟩
+  intro tape
+  obtain ⟨ha, ht⟩ := c20x_attempt_done src fs d tape hd (fun _ => he)
+  rw [hh, ha]
+  exact ⟨rfl, ht, by intro hc; simp [hc]⟩
+
+/-- in particular for a `Complete` destination (the form asked for: `Complete → history … fs = fs`) -/
+theorem complete_history_fixed (src : Src) (fs : FS) (d : Dir) (hd : fs.dst = some d) (hc : Complete src d)
+    (tapes : List (List Choice)) : history src tapes fs = fs :=
+  (completed_copy_idempotent src fs d hd hc.2.1 tapes).1
+
+/-- **After the first normal return nothing ever changes again**: any origin (`Inv` holds initially by
+    `inv_init_absent` / `inv_init_user`), any crash history, a returning invocation, then any later history. -/
+theorem after_return_frozen (src : Src) (o : Origin) (fs0 : FS) (h0 : Inv src o fs0)
+    (tapes : List (List Choice)) (tape : List Choice) (r : Result)
+    (hret : (attempt src tape (history src tapes fs0)).pc = .ret r) (later : List (List Choice)) :
+    history src later (attempt src tape (history src tapes fs0)).fs = (attempt src tape (history src tapes fs0)).fs := by
+  have h := normal_return_complete src o fs0 h0 tapes tape r hret
+  cases o with
+  | auto =>
+    obtain ⟨d, hd, hc⟩ := h
+    exact complete_history_fixed src _ d hd hc later
+  | user d0 =>
+    exact c20x_history_done src _ d0 later h.1 (by intro hs'; rw [h0.2] at hs'; cases hs')
+
+/-- … spelled out for the absent start, as one statement over a single list of invocations: if the `k`-th invocation
+    of a history returned, the file system after the whole history is the one right after that invocation. -/
+theorem after_return_frozen_from_absent (src : Src) (tmp0 : Option Bool) (tapes : List (List Choice))
+    (tape : List Choice) (r : Result) (later : List (List Choice))
+    (hret : (attempt src tape (history src tapes ⟨none, tmp0⟩)).pc = .ret r) :
+    history src (tapes ++ tape :: later) ⟨none, tmp0⟩ = (attempt src tape (history src tapes ⟨none, tmp0⟩)).fs ∧
+    ∃ d, (history src (tapes ++ tape :: later) ⟨none, tmp0⟩).dst = some d ∧ Complete src d := by
+  have hf := after_return_frozen src .auto ⟨none, tmp0⟩ (inv_init_absent src tmp0) tapes tape r hret later
+  have e : history src (tapes ++ tape :: later) ⟨none, tmp0⟩ =
+      history src later (attempt src tape (history src tapes ⟨none, tmp0⟩)).fs := by
+    rw [c20x_history_append]; rfl
+  rw [e, hf]
+  exact ⟨rfl, crash_safe_from_absent src tmp0 tapes tape r hret⟩
+
+/-- non-vacuity / what it evaluates to: a completed copy followed by a crashed, an empty and a long invocation that
+    try to delete everything — the result of a further call is "nothing done" -/
+example : (attempt ⟨true, false, 2, 0, 2⟩ (List.replicate 5 .endMarker)
+    (history ⟨true, false, 2, 0, 2⟩ [List.replicate 8 .any, [.endMarker], [], List.replicate 30 (.file 0)] ⟨none, none⟩)).pc
+      = .ret nothingDone := by decide +kernel
+
+/-! ## "An interrupted copy is never reported as usable", closed over histories -/
+
+/-- **Only a complete copy is ever reported as already there** (clause 4).  Absent start, any crash history, a final
+    invocation that returns `r`: it reports `was_copied = false` ("use what is there") **iff** the destination it
+    found was already a complete copy — and then `r` is "nothing done" and the file system is unchanged.  Hence an
+    interrupted (or absent) destination is never reported as usable: for it the call returns `was_copied = true`, having
+    produced a complete copy (`crash_safe_from_absent`). -/
+theorem reported_usable_iff_complete (src : Src) (tmp0 : Option Bool) (tapes : List (List Choice)) (tape : List Choice)
+    (r : Result) (hret : (attempt src tape (history src tapes ⟨none, tmp0⟩)).pc = .ret r) :
+    (r.wasCopied = false ↔ ∃ d, (history src tapes ⟨none, tmp0⟩).dst = some d ∧ Complete src d) ∧
+    (r.wasCopied = false → r = nothingDone ∧
+        (attempt src tape (history src tapes ⟨none, tmp0⟩)).fs = history src tapes ⟨none, tmp0⟩) := by
+  have htr := (result_truthful src _ tape r hret).1
+  refine ⟨⟨?_, ?_⟩, fun h => ⟨(htr h).1, (htr h).2.1⟩⟩
+  · intro h
+    obtain ⟨_, hfs, _⟩ := htr h
+    obtain ⟨d, hd, hc⟩ := crash_safe_from_absent src tmp0 tapes tape r hret
+    rw [hfs] at hd
+    exact ⟨d, hd, hc⟩
+  · intro ⟨d, hd, hc⟩
+    by_cases hsrc : checkSrc src = true
+    · have := ((completed_copy_idempotent src _ d hd hc.2.1 []).2 tape).2.2 hsrc
+      have e : history src [] (history src tapes ⟨none, tmp0⟩) = history src tapes ⟨none, tmp0⟩ := rfl
+      rw [e] at this
+      rw [this] at hret
+      cases hret
+      rfl
+    · have ha := (c20x_attempt_done src _ d tape hd (fun _ => hc.2.1)).1
+      rw [ha] at hret
+      simp [hsrc] at hret
+
+/-- **… and an interrupted one is deleted and copied again**: if the crash history left an interrupted copy (start
+    marker without end marker), a returning invocation reports `was_copied ∧ was_deleted`, took at least one mutating
+    step, and the destination is a complete copy afterwards. -/
+theorem interrupted_after_history_recopied (src : Src) (tmp0 : Option Bool) (tapes : List (List Choice))
+    (tape : List Choice) (r : Result) (hint : Interrupted (history src tapes ⟨none, tmp0⟩))
+    (hret : (attempt src tape (history src tapes ⟨none, tmp0⟩)).pc = .ret r) :
+    r.wasCopied = true ∧ r.wasDeleted = true ∧ tape ≠ [] ∧
+    ∃ d, (attempt src tape (history src tapes ⟨none, tmp0⟩)).fs.dst = some d ∧ Complete src d := by
+  obtain ⟨h1, h2, h3, _⟩ := interrupted_never_usable src _ tape r hint hret
+  exact ⟨h1, h2, h3, crash_safe_from_absent src tmp0 tapes tape r hret⟩
+
+/-- non-vacuity: history killed after 6 steps is interrupted; the next call (12 steps allowed) reports
+    `was_copied ∧ was_deleted`; the call after that reports "nothing done" -/
+example : Interrupted (history ⟨true, false, 2, 0, 2⟩ [List.replicate 6 .any] ⟨none, none⟩) ∧
+    (attempt ⟨true, false, 2, 0, 2⟩ (List.replicate 12 .any)
+      (history ⟨true, false, 2, 0, 2⟩ [List.replicate 6 .any] ⟨none, none⟩)).pc = .ret ⟨true, true, some .raw⟩ ∧
+    (attempt ⟨true, false, 2, 0, 2⟩ []
+      (history ⟨true, false, 2, 0, 2⟩ [List.replicate 6 .any, List.replicate 12 .any] ⟨none, none⟩)).pc =
+        .ret nothingDone := ⟨⟨_, rfl, rfl, rfl⟩, by decide +kernel, by decide +kernel⟩
+
+/-! ## Source formats as abstract file sets (`Model/C20Spec.lean`; see its header for what the machine distinguishes:
+    the format only via `source_format` and `nFiles`; `relative_path` and `num_workers` not at all — the former is
+    applied to both paths before the modelled code starts, the latter only permutes steps, which the tape oracle
+    already quantifies over). -/
+
+/-- the machine's `nFiles` for a source layout is the size of its file list -/
+theorem toSrc_nFiles (t : SrcTree) : t.toSrc.nFiles = t.members.length := by cases t <;> rfl
+
+/-- **Format detection on the three layouts**: a clear-cut layout passes `_check_src_path` and is detected (and reported
+    in `source_format`) as what it is. -/
+theorem format_of_layout (t : SrcTree) (h : t.Clear) : checkSrc t.toSrc = true ∧ fmtOf t.toSrc = some t.format := by
+  cases t with
+  | raw sib nItems nZips files =>
+    refine ⟨rfl, ?_⟩
+    have : mostlyZips ⟨true, sib, nItems, nZips, files.length⟩ = false := by
+      simp only [SrcTree.Clear] at h
+      simp only [mostlyZips, Bool.and_eq_false_iff, decide_eq_false_iff_not]
+      omega
+    show fmtOf ⟨true, sib, nItems, nZips, files.length⟩ = some .raw
+    simp only [fmtOf, this, if_true, Bool.false_eq_true, if_false]
+  | zip ms => exact ⟨rfl, rfl⟩
+  | zips sib archives others =>
+    refine ⟨rfl, ?_⟩
+    have : mostlyZips ⟨true, sib, archives.length + others, archives.length, archives.flatten.length⟩ = true := by
+      simp only [SrcTree.Clear] at h
+      simp only [mostlyZips, Bool.and_eq_true, decide_eq_true_eq]
+      exact h
+    show fmtOf ⟨true, sib, archives.length + others, archives.length, archives.flatten.length⟩ = some .zips
+    simp only [fmtOf, this, if_true]
+
+/-- **Per-format completeness** (clause "a complete copy of the source (plain folder, single zip or folder of zips)"):
+    for each of the three layouts, a `Complete` destination holds, completely written, exactly the files of the source
+    — the tree's files / the archive's members / the members of all archives —, none of them partially, and nothing
+    else (apart from the two markers). -/
+theorem complete_holds_exactly_source_files (t : SrcTree) (d : Dir) (h : Complete t.toSrc d) :
+    (∀ p, holdsWhole t d p ↔ p ∈ t.members) ∧ (∀ p, holdsSome t d p → holdsWhole t d p) ∧ d.foreign = [] := by
+  obtain ⟨_, _, hw, hf⟩ := h
+  rw [toSrc_nFiles] at hw
+  refine ⟨?_, ?_, hf⟩
+  · intro p
+    constructor
+    · rintro ⟨i, hi, _⟩
+      exact List.mem_of_getElem? hi
+    · intro hp
+      obtain ⟨i, hlt, hi⟩ := List.getElem_of_mem hp
+      exact ⟨i, by rw [List.getElem?_eq_getElem hlt, hi], hw i hlt⟩
+  · rintro p ⟨i, hi, _⟩
+    have hlt : i < t.members.length := by
+      obtain ⟨h, _⟩ := List.getElem?_eq_some_iff.mp hi
+      exact h
+    exact ⟨i, hi, hw i hlt⟩
+
+/-- **Headline per format**: absent destination, any crash history, a returning final invocation on a source of any of
+    the three layouts: the destination then holds exactly the source's files, all whole. -/
+theorem crash_safe_file_set (t : SrcTree) (tmp0 : Option Bool) (tapes : List (List Choice)) (tape : List Choice)
+    (r : Result) (hret : (attempt t.toSrc tape (history t.toSrc tapes ⟨none, tmp0⟩)).pc = .ret r) :
+    ∃ d, (attempt t.toSrc tape (history t.toSrc tapes ⟨none, tmp0⟩)).fs.dst = some d ∧
+      (∀ p, holdsWhole t d p ↔ p ∈ t.members) ∧ (∀ p, holdsSome t d p → holdsWhole t d p) ∧ d.foreign = [] ∧
+      d.start = true ∧ d.end_ = true := by
+  obtain ⟨d, hd, hc⟩ := crash_safe_from_absent t.toSrc tmp0 tapes tape r hret
+  obtain ⟨h1, h2, h3⟩ := complete_holds_exactly_source_files t d hc
+  exact ⟨d, hd, h1, h2, h3, hc.1, hc.2.1⟩
+
+/-- non-vacuity: a folder of two archives (2 + 1 members) and a README; one crashed attempt, then a full one: detected
+    as `zips`, 3 files -/
+example : (SrcTree.zips false [["a/1.png", "a/2.png"], ["b/1.png"]] 1).Clear ∧
+    (SrcTree.zips false [["a/1.png", "a/2.png"], ["b/1.png"]] 1).members = ["a/1.png", "a/2.png", "b/1.png"] ∧
+    (attempt (SrcTree.zips false [["a/1.png", "a/2.png"], ["b/1.png"]] 1).toSrc (List.replicate 15 .any)
+      (history (SrcTree.zips false [["a/1.png", "a/2.png"], ["b/1.png"]] 1).toSrc [List.replicate 5 .any] ⟨none, none⟩)).pc
+      = .ret ⟨true, true, some .zips⟩ := ⟨by simp [SrcTree.Clear], rfl, by decide +kernel⟩
 
 end KDVerif.C20
